@@ -360,6 +360,19 @@ class PipeWorld:
         integrals = list(integrals)
         f = Obj("Form", __class__=self._Form)
         f.attrs.update(integrals=lambda: tuple(integrals), ufl_domains=lambda: (self.dom,), empty=lambda: not integrals, arguments=lambda: ())
+
+        # the terminals the form reports, by kind (each once, in order of first occurrence)
+        def terminals(kind):
+            k = self.ctx.tm.get(kind).cls
+            seen, out = set(), []
+            for itg in integrals:
+                for t in self.nodes_of(itg.attrs["_integrand"]):
+                    if isinstance(t, T) and t.tags.get("_ufl_is_terminal_") and self._is_a(t, k) and id(t) not in seen:
+                        seen.add(id(t))
+                        out.append(t)
+            return tuple(out)
+
+        f.attrs.update(coefficients=lambda: terminals("Coefficient"), constants=lambda: terminals("Constant"), geometric_quantities=lambda: terminals("GeometricQuantity"), arguments=lambda: terminals("Argument"))
         return f
 
     # ------------------------------------------------------------------ the pipeline
